@@ -140,16 +140,26 @@ def hx(b: bytes) -> str:
 
 
 def run_driver(lines: list[str], timeout=1200) -> list[str] | None:
-    """Pipe operation lines to the compiled Lean driver; one output line per input line."""
+    """Pipe operation lines to the compiled Lean driver; one output line per input line.
+    None = there is no driver (it did not build: a broken obligation, handled by the caller).  A driver that exists but
+    dies or answers with the wrong number of lines is a fault of the machinery, not a verdict: retried once (the binary
+    may just have been replaced by a concurrent build), then raised (exit 2)."""
     if not DRIVER.exists():
         return None
-    p = subprocess.run([str(DRIVER)], input="\n".join(lines) + "\n", capture_output=True, text=True, timeout=timeout)
-    if p.returncode != 0:
-        return None
-    out = p.stdout.splitlines()
-    if len(out) != len(lines):
-        return None
-    return out
+    why = ""
+    for attempt in range(2):
+        try:
+            p = subprocess.run([str(DRIVER)], input="\n".join(lines) + "\n", capture_output=True, text=True, timeout=timeout)
+        except OSError as exc:   # e.g. "Text file busy" while lake replaces the binary
+            why = repr(exc)
+            time.sleep(3)
+            continue
+        out = p.stdout.splitlines()
+        if p.returncode == 0 and len(out) == len(lines):
+            return out
+        why = f"exit {p.returncode}, {len(out)} lines for {len(lines)} operations, stderr {p.stderr[-300:]!r}"
+        time.sleep(3)
+    raise RuntimeError("Lean driver failed at run time: " + why)
 
 
 def run_driver_parallel(batches: list[list[str]], workers=None) -> list[list[str] | None]:
